@@ -73,6 +73,14 @@ pub struct SimCfg {
     pub allow_unasked_service: bool,
     /// run a final drain phase (reconnect with a responsive compliant broker until quiescent)
     pub drain: bool,
+    /// packet id the allocator starts from (0 = untouched, i.e. 1): puts the 65535 -> 1 wrap-around inside short
+    /// histories; every value is reachable by the real code after that many allocations (C06's `extra` run shows it)
+    #[serde(default)]
+    pub first_pid: u16,
+    /// CONNACK template used on the 2nd, 4th, ... connection (None: `connack` always): a server may announce
+    /// different limits on every connection (e.g. a lower Receive Maximum after a resumed reconnect)
+    #[serde(default)]
+    pub connack_alt: Option<ConnackTemplate>,
 }
 
 impl Default for SimCfg {
@@ -95,6 +103,8 @@ impl Default for SimCfg {
             policy: BrokerPolicy::Compliant,
             allow_unasked_service: false,
             drain: true,
+            first_pid: 0,
+            connack_alt: None,
         }
     }
 }
